@@ -122,14 +122,9 @@ class ADT(Native):
         return f"naive, wall clock = instant + {dict(sh)} x utcoffset"
 
 
-def check(ctx):
+def rule_normaliser_frames(ctx, rid):
+    """Z2: frame typing of the normaliser (also a premise of the staleness table: it must be order preserving)."""
     m = ctx.model
-    ctx.rule("C18.Z1", "every datetime reaching a staleness comparison (fresh_time, every get_modified_time result) passes through the normaliser first; no other datetime is synthesised in the stale check")
-    ctx.rule("C18.Z2", "frame typing of the normaliser by abstract evaluation: None -> None; naive-local and aware(any zone) inputs land in one frame in which comparison compares instants (aware, or naive UTC)")
-    ctx.rule("C18.Z3", "bundled stores construct modified times as naive-local (fromtimestamp(t)) or aware values, never naive-UTC (utcfromtimestamp/utcnow)")
-    ctx.trust("datetime: x.astimezone(tz) preserves the instant and reads a naive x as local time honouring fold; x.replace(tzinfo=None) keeps the wall-clock fields; utcoffset() is None for naive values; fromtimestamp(t) is naive local")
-    er = E.discover(m)
-    rr = R.discover(m, er)
     nf = m.one_func("_to_naive_utc_time", "NORMALISER")
     # ---------------------------------------------------------------- Z2
     Z = Zone("Z")
@@ -143,9 +138,9 @@ def check(ctx):
             outs[name] = ("raises", e.value)
     ctx.notes["normaliser_frames"] = {k: (v.describe() if isinstance(v, ADT) else repr(v)) for k, v in outs.items()}
     ok = outs["None"] is None
-    ctx.ob("C18.Z2", f"{nf.short}/None", ok, loc(nf), "None -> None" if ok else f"None -> {outs['None']!r}")
+    ctx.ob(rid, f"{nf.short}/None", ok, loc(nf), "None -> None" if ok else f"None -> {outs['None']!r}")
     decos = nf.decorator_names()
-    ctx.ob("C18.Z2", f"{nf.short}/not-memoised", not decos, loc(nf),
+    ctx.ob(rid, f"{nf.short}/not-memoised", not decos, loc(nf),
            "the normaliser is a plain function" if not decos else
            f"the normaliser is wrapped by @{decos[0]}: a cache keyed on datetime equality conflates fold=0 and fold=1 (naive "
            f"equality and hash ignore fold), so the two passes of a repeated hour share one result")
@@ -153,21 +148,33 @@ def check(ctx):
     for k in ("naive-local", "aware-Z", "aware-UTC", "aware-LOCAL"):
         o = outs[k]
         if not isinstance(o, ADT):
-            ctx.ob("C18.Z2", f"{nf.short}/{k}", False, loc(nf), f"{k} input -> {o!r} (not a datetime)")
+            ctx.ob(rid, f"{nf.short}/{k}", False, loc(nf), f"{k} input -> {o!r} (not a datetime)")
             continue
         kind, sh = o.frame()
         good = not sh
         frames[k] = kind if good else (kind, sh)
-        ctx.ob("C18.Z2", f"{nf.short}/{k}", good, loc(nf),
+        ctx.ob(rid, f"{nf.short}/{k}", good, loc(nf),
                f"{k} input -> {o.describe()}" if good else
                f"{k} input -> {o.describe()}: the result does not denote the input's instant on the UTC time line, so "
                f"comparisons depend on the process time zone", k)
     kinds = set(frames.values())
     ok = len(kinds) == 1 and all(isinstance(x, str) for x in kinds)
-    ctx.ob("C18.Z2", f"{nf.short}/one-frame", ok, loc(nf),
+    ctx.ob(rid, f"{nf.short}/one-frame", ok, loc(nf),
            f"all inputs land in one frame: {sorted(map(str, kinds))}" if ok else
            f"inputs land in different frames {ctx.notes['normaliser_frames']}: naive and aware values are compared on "
            f"different time lines (or the comparison raises)")
+
+
+def check(ctx):
+    m = ctx.model
+    ctx.rule("C18.Z1", "every datetime reaching a staleness comparison (fresh_time, every get_modified_time result) passes through the normaliser first; no other datetime is synthesised in the stale check")
+    ctx.rule("C18.Z2", "frame typing of the normaliser by abstract evaluation: None -> None; naive-local and aware(any zone) inputs land in one frame in which comparison compares instants (aware, or naive UTC)")
+    ctx.rule("C18.Z3", "bundled stores construct modified times as naive-local (fromtimestamp(t)) or aware values, never naive-UTC (utcfromtimestamp/utcnow)")
+    ctx.trust("datetime: x.astimezone(tz) preserves the instant and reads a naive x as local time honouring fold; x.replace(tzinfo=None) keeps the wall-clock fields; utcoffset() is None for naive values; fromtimestamp(t) is naive local")
+    er = E.discover(m)
+    rr = R.discover(m, er)
+    nf = m.one_func("_to_naive_utc_time", "NORMALISER")
+    rule_normaliser_frames(ctx, "C18.Z2")
     # ---------------------------------------------------------------- Z1
     st = rr.stale
     ft = [p for p in st.params if "fresh" in p]
